@@ -75,7 +75,7 @@ pub struct Replace<T> {
 impl Replace<MetaVariable> {
   fn compute<D: Doc>(&self, ctx: &mut Ctx<D>) -> Option<String> {
     let text = get_text_from_env(&self.source, ctx)?;
-    let re = Regex::new(&self.replace).unwrap();
+    let re = Regex::new(&self.replace).ok()?;
     Some(re.replace_all(&text, &self.by).into_owned())
   }
 }
@@ -140,11 +140,15 @@ impl Transformation<String> {
   ) -> Result<Transformation<MetaVariable>, TransformError> {
     use Transformation as T;
     Ok(match self {
-      T::Replace(r) => T::Replace(Replace {
-        source: parse_meta_var(&r.source, lang)?,
-        replace: r.replace.clone(),
-        by: r.by.clone(),
-      }),
+      T::Replace(r) => {
+        // report an invalid regex when the rule is loaded, not when it first matches
+        Regex::new(&r.replace).map_err(|e| TransformError::Regex(e.to_string()))?;
+        T::Replace(Replace {
+          source: parse_meta_var(&r.source, lang)?,
+          replace: r.replace.clone(),
+          by: r.by.clone(),
+        })
+      }
       T::Substring(s) => T::Substring(Substring {
         source: parse_meta_var(&s.source, lang)?,
         start_char: s.start_char,
@@ -162,7 +166,10 @@ impl Transformation<String> {
   pub fn used_vars(&self) -> &str {
     // NOTE: meta_var in transform always starts with `$`, for now
     let s = self.source();
-    s.strip_prefix("$$$").unwrap_or_else(|| &s[1..])
+    // the source is validated later by `parse`: do not slice blindly here
+    s.strip_prefix("$$$")
+      .or_else(|| s.strip_prefix('$'))
+      .unwrap_or(s)
   }
 }
 impl Transformation<MetaVariable> {
